@@ -83,8 +83,12 @@ MANIFEST = {
             "expand, SANSE framing) to the specification is validation: differential run against the Lean model on "
             "two builds, anchored to the XKCP vector files; aliasing variants compared on the Go side.",
     "design_ref": "DESIGN.md 5.12",
-    "note": "Trusted: Lean kernel; the correspondence run ties model and code; unforgeability/key recovery hardness are "
-            "not claimed; the assembly permutations are compared, not verified.",
+    "note": "Trusted: Lean kernel; the correspondence run ties model and code (quick: ~7 400 cases / 33 000 calls per "
+            "build - 199 key lengths x 12 length pairs, 300 sessions, 4 000 bit flips, 400 raw deck programs - ~16 s; "
+            "thorough: ~170 000 cases per build incl. every bit of a 1 KiB message and 64 KiB packets, ~3 min on 16 "
+            "cores); unforgeability/key-recovery hardness are not claimed (C12_tamper carries it as a hypothesis); the "
+            "assembly permutations are compared, not verified. Two defects were found by this check and repaired: "
+            "F19 (snp.StateSetByte erased key bytes) and the portable Keccak-p[1600,6] being a panic stub.",
     "technique": "Lean 4 proof (mode-level round trip and exact-acceptance over an abstract deck function) + differential "
                  "correspondence on two builds + XKCP vector replay",
 }
